@@ -81,6 +81,39 @@ def run(tier: str) -> int:
                               f"supplying {n} with its own computed values changes {t} at {date}",
                               {"date": date, "data": popgen.frame_to_json(df), "node": n, "target": t,
                                "observed": a.tolist()[:30], "expected": b.tolist()[:30]})
+            # the same through a dict of Series whose index is not 0..n-1 (rows sorted / filtered without
+            # reset_index), the fed-back column carrying the RangeIndex of an earlier result: everything
+            # gettsim does is positional, so nothing may change
+            import pandas as pd
+            lab = rnd.sample(range(100, 100 + len(df)), len(df))
+            for n in rnd.sample(sel, min(6, len(sel))):
+                dd = {c: pd.Series(df[c].to_numpy(), index=lab, name=c) for c in df.columns}
+                dd[n] = pd.Series(full[n].to_numpy(), name=n)          # default RangeIndex, as returned by gettsim
+                T = [t for t in DEFAULT_TARGETS if t != n]
+                r.case({"date": date, "pop": k, "node": n, "input": "dict of Series, other index"})
+                try:
+                    res, ws = simulate_w(dd, date, T)
+                except Exception as e:  # noqa: BLE001
+                    msg = " ".join(str(e).split())
+                    import re as _re
+                    mcol = _re.search(r"Column '([^']+)' has not one unique value per", msg)
+                    col = mcol.group(1) if mcol else None
+                    # the clean tree rejects exactly these: the supplied column itself is group-level, or it is the
+                    # group id by which another supplied column is checked
+                    label_aligned = col is not None and (col == n or (n.endswith("_id") and col.endswith("_" + n[:-3])))
+                    r.hit({"node": "<group-level or id column>" if label_aligned else n, "kind": "override-raises", "input": "dict",
+                           **({"cause": "group-constancy check aligns by index label"} if label_aligned else {})},
+                          f"supplying {n} in a dict of Series with a non-default index raises {type(e).__name__}: {str(e)[:160]}",
+                          {"date": date, "data": popgen.frame_to_json(df), "node": n, "index": lab})
+                    continue
+                for t in T:
+                    a, b = res[t].to_numpy(), full[t].to_numpy()
+                    same = popgen.same_partition(a.tolist(), b.tolist()) if meta.is_id(t) else popgen.close(a, b, rel=1e-9)
+                    if len(a) != len(b) or not same:
+                        r.hit({"node": n, "kind": "override-changes-results", "target": t, "input": "dict"},
+                              f"supplying {n} with its own computed values in a dict of Series (index labels {lab[:4]}…) changes {t} at {date}",
+                              {"date": date, "data": popgen.frame_to_json(df), "node": n, "target": t, "index": lab})
+                        break
             # no overlap -> no overlap warning (a minimal table: only the root columns of the graph)
             dag, fno = popgen.graph(date)
             all_fn = set(_all_function_names(date, list(df.columns)))
@@ -97,7 +130,12 @@ def run(tier: str) -> int:
             for n in rnd.sample([x for x in nodes if full[x].dtype.kind == "f"], 6 if quick else 40):
                 alt = full[n].to_numpy() + 1234.5
                 d2 = df.assign(**{n: alt})
-                consumers = [m for m in nodes if n in _args(date, m)]
+                import networkx as nx
+                dag_, _ = popgen.graph(date)
+                below = nx.descendants(dag_, n) if n in dag_ else set()
+                # consumers none of whose OTHER parents depend on n (so that holding them fixed is right)
+                consumers = [m for m in nodes if n in _args(date, m)
+                             and not any(a != n and a in below for a in _args(date, m))]
                 if not consumers:
                     continue
                 m = rnd.choice(consumers)
